@@ -99,7 +99,13 @@ class MultivariateNormal(DistributionModel):
 
     def _sample_shape(self) -> torch.Size:
         offset = 1 if len(self.batch_shape) == 0 else len(self.batch_shape)
-        return self.x.tensor.shape[:-offset]
+        # the parameters may carry the sample dimensions when x does not
+        return max(
+            self.x.tensor.shape[:-offset],
+            self.batch_shape,
+            self.parameter.shape[:-2],
+            key=len,
+        )
 
     @classmethod
     def from_json(cls, data, dic):
